@@ -14,11 +14,19 @@ import traceback
 import numpy as np
 import z3
 
-from .interp import Interp, Ctx, PathInfeasible, RepoFunction, BoundMethod, PropertyObj, ClassMethodObj
+from .interp import Interp, Ctx, PathInfeasible, PathEnd, RepoFunction, BoundMethod, PropertyObj, ClassMethodObj
 from .values import (Sym, Arr, TArr, Obj, NpScalar, Untranslatable, Raised, obj_cls, obj_dict, raw, term_of, mk, real_val)
 
 REGISTRY = {}          # key -> list[Contract]
 ORDER = []
+LOOP_SPECS = {}        # (function key, loop ordinal) -> {"invariant": f(L), "havoc": {name: kind}, "hints": f(L) -> [lemma instances]}
+
+
+def loop_invariant(fn_key, ordinal, havoc=None, hints=None, np_flags=None):
+    def deco(f):
+        LOOP_SPECS[(fn_key, ordinal)] = {"invariant": f, "havoc": havoc or {}, "hints": hints or (lambda v: []), "np": np_flags or {}}
+        return f
+    return deco
 
 
 class Contract:
@@ -432,7 +440,7 @@ def _to_goal(v):
 
 def run_path(I, c, cfg, decisions):
     """one symbolic execution of the function under contract `c`; returns (ctx, builder, records)"""
-    I.ctx = Ctx(decisions)
+    I.ctx = Ctx(decisions, qf_probe=(c.holder.__dict__.get("probe") == "quantifier-free"))
     I.extent_cap = c.extent_cap
     I.reset_state()
     if "environ" in c.holder.__dict__:
@@ -448,14 +456,19 @@ def run_path(I, c, cfg, decisions):
         setattr(a, "_cfg_" + k, v)
         setattr(old, "_cfg_" + k, v)
     outcome = None
+    I.loop_specs = dict(LOOP_SPECS)
     try:
         result = call_symbolic(I, c, a, cfg)
         outcome = ("return", result)
     except Raised as r:
         outcome = ("raise", r.exc)
+    except PathEnd:
+        outcome = ("loop-step", None)
     ctx = I.ctx
     path = "".join("T" if d else "F" for d in ctx.trace) or "-"
-    if outcome[0] == "return":
+    if outcome[0] == "loop-step":
+        pass
+    elif outcome[0] == "return":
         for name, f in c.ensures:
             try:
                 g = _to_goal(f(a, old, outcome[1]))
@@ -519,6 +532,18 @@ DYADIC_MAX = 4096
 def solve(hyps, goal, timeout_ms=20000, dyadic_syms=None, seed=0):
     """returns ('proved'|'refuted'|'unknown', model or None, seconds, reason)"""
     t0 = time.time()
+    from . import induct
+    if induct.SPEC and induct.mentions_spec(list(hyps) + [goal]):
+        # recursive spec functions: first with uninterpreted twins and explicit instances of the defining equations
+        # (stable, milliseconds); z3's own unfolding of the definitions below is the fallback and the source of models
+        terms, axioms = induct.with_unfoldings(list(hyps) + [z3.Not(goal)])
+        s = z3.Solver()
+        s.set("timeout", max(2000, timeout_ms // 2))
+        s.set("random_seed", seed)
+        s.add(*terms)
+        s.add(*axioms)
+        if s.check() == z3.unsat:
+            return "proved", None, time.time() - t0, ""
     s = z3.Solver()
     s.set("timeout", timeout_ms)
     s.set("random_seed", seed)
@@ -895,6 +920,17 @@ def verify(cname, cfg, timeout_ms=20000, seed=0, repo_src=None, samples=0):
                     rec["replay"] = {"failed": [list(x) for x in rp["failed"]], "outcome": rp["outcome"],
                                      "inexact": rp.get("inexact", []), "detail": rp.get("detail", {})}
                     rec["replayed"] = any(x[1] == name or x[0] == kind for x in rp["failed"]) or bool(rp["failed"])
+            res.obligations.append(rec)
+    # inductive lemmas the loop hints instantiate: base case and step are obligations of this contract
+    for lem in c.holder.__dict__.get("lemmas", ()):
+        from . import induct
+        for label, status, secs, reason in induct.prove(lem, timeout_ms):
+            res.solver_s += secs
+            rec = {"name": f"{c.name}#lemma-{label}:{lem.name}@{cid}/-", "kind": "lemma-" + label, "clause": lem.name, "config": cid,
+                   "path": "-", "status": status, "ms": round(secs * 1000, 1), "hyps": 0, "mode": c.mode, "bounded": False}
+            if status != "proved":
+                rec["reason"] = reason or "the induction step does not follow"
+                rec["goal"] = lem.name
             res.obligations.append(rec)
     n = samples if not res.untranslatable else max(samples, 40)
     if n:
